@@ -47,11 +47,13 @@ type Clause struct {
 	Assigns  []ast.Expr
 	Nothing  bool
 	Like     *ast.CallExpr // like: callee contract instantiated with these arguments
+	Lit      string        // at call K "lit": the call site is addressed by a string literal argument
+	HasLit   bool
 	NoResult bool
 }
 
 type Contract struct {
-	Sweep    bool // empty contract synthesised by 'govc sweep'
+	Sweep        bool   // empty contract synthesised by 'govc sweep'
 	Synth        bool   // synthesised for an unlisted pure library function
 	Key          string // "pop" / "parseState.pop" / "strings.TrimSpace"
 	Assumed      bool
@@ -410,6 +412,29 @@ func parseClause(c *Contract, t string, line int) error {
 		// the n-th call of <key> in source order; use()/unfold() hints cost nothing
 		atTags, rest := parseTags(rest)
 		f := strings.Fields(rest)
+		if len(f) >= 3 && f[0] == "call" && strings.HasPrefix(f[2], "\"") {
+			// at call <key> "literal": E  - the call of <key> that has this string
+			// literal among its arguments (must be exactly one): an address that
+			// survives edits which add or remove other calls of <key>
+			k := strings.Index(rest, f[1]) + len(f[1])
+			after := strings.TrimSpace(rest[k:])
+			q, err := strconv.QuotedPrefix(after)
+			if err != nil {
+				return fmt.Errorf("bad literal in 'at' clause: %q", t)
+			}
+			lit, _ := strconv.Unquote(q)
+			tail := strings.TrimSpace(after[len(q):])
+			if !strings.HasPrefix(tail, ":") {
+				return fmt.Errorf("'at' clause without ':'")
+			}
+			body := strings.TrimSpace(tail[1:])
+			e, err := parseSpecExpr(body)
+			if err != nil {
+				return fmt.Errorf("at: %v", err)
+			}
+			c.Clauses = append(c.Clauses, &Clause{Kind: "at", Name: f[1], Loop: -1, Lit: lit, HasLit: true, Text: body, Expr: e, Line: line, Tags: atTags})
+			return nil
+		}
 		if len(f) < 4 || f[0] != "call" || !strings.HasPrefix(f[2], "#") {
 			return fmt.Errorf("bad 'at' clause: %q", t)
 		}
